@@ -342,6 +342,36 @@ func famFSStops(w *World, spec *RunSpec, res *RunResult) {
 		seqSetup(x, s)
 	})
 	x.afterStop()
+	// the next process goes on with what it finds (leftovers of the
+	// interrupted Save included)
+	x.FS.StopCall = -1
+	x.FS.Direct = true
+	p2 := mqtt.FileSystem(fsDir)
+	for _, k := range fsKeys {
+		if v, err := p2.Load(k); err == nil && v != nil {
+			x.Model[k] = v
+		} else {
+			delete(x.Model, k)
+		}
+	}
+	x.FS.Direct = false
+	x.InFlight = map[int]*fsAPI{}
+	RunBubble(w, func(s *Sim) {
+		x.FS.Attach(s)
+		x.P = mqtt.FileSystem(fsDir)
+		s.Done = func() bool { return x.live == 0 }
+		n := 2 + w.Tape.Draw("nfsops2", 4)
+		x.live = 1
+		s.Go("w1", func() { x.seqTask(s, n, false) })
+	})
+	x.FS.Direct = true
+	for _, k := range fsKeys {
+		got, err := x.P.Load(k)
+		if err != nil || !bytes.Equal(got, x.Model[k]) {
+			w.Violate("C19", "store-diverged", "after-restart", "after a kill and a restart key %#x loads %d bytes (err %v), acknowledged are %d", k, len(got), err, len(x.Model[k]))
+		}
+	}
+	x.FS.Direct = false
 	res.Summary = fmt.Sprintf("fs stop at call %d phase %d (%s): model keys %d, in flight %d", pt[0], pt[1], dx.FS.Calls[pt[0]].Kind, len(x.Model), len(x.InFlight))
 	res.Touched = true
 }
